@@ -106,6 +106,32 @@ SUITE = [
 ]
 
 
+import itertools
+_SWEEP = []
+for _nd in (2, 3):
+    for _perm in itertools.permutations(range(_nd)):
+        for _dyn in ("static", "dynamic", "mixed"):
+            for _item in ("sc", "str", "struct"):
+                _SWEEP.append((_nd, list(_perm), _dyn, _item))
+
+
+def sweep_type(i, rng):
+    """systematic part of the type space: every axis order of 2-D and 3-D arrays x static/dynamic shape x item kind, extents >= 2"""
+    nd, perm, dyn, item = _SWEEP[i % len(_SWEEP)]
+    ext = [rng.choice([2, 2, 3]) for _ in range(nd)]
+    if dyn == "dynamic":
+        sh = [-1] * nd
+    elif dyn == "mixed":
+        sh = [(-1 if rng.random() < 0.5 else e) for e in ext]
+    else:
+        sh = ext
+    it = {"sc": X.sc(rng.choice(list(X.KINDS))), "str": X.STR, "struct": X.struct(X.sc("Int8"), X.STR)}[item]
+    tx = X.arr(it, sh, perm)
+    if rng.random() < 0.3:
+        tx = X.struct(X.sc("Int16"), tx, X.STR)
+    return tx, ext
+
+
 def pick_type(rng, refs=True, maxdepth=3):
     if rng.random() < 0.45:
         c = [t for t in SUITE if refs or not X.has_refs(t)]
@@ -117,9 +143,13 @@ def pick_type(rng, refs=True, maxdepth=3):
 def prog_construct(w, rng, refs=True):
     """C01 / C05 / C03 / C06: constructions of every form and placement, read back through every route"""
     keys = []
-    for _ in range(rng.randint(1, 3)):
-        tx = pick_type(rng, refs)
-        k = w.new(tx, rng.randrange(2))
+    for n in range(rng.randint(1, 3)):
+        if n == 0 and w.index % 2 == 0:
+            tx, ext = sweep_type(w.index // 2, rng)
+            k = w.new(tx, rng.randrange(2), mindim=2)
+        else:
+            tx = pick_type(rng, refs)
+            k = w.new(tx, rng.randrange(2))
         if k is None:
             return
         keys.append(k)
@@ -130,8 +160,11 @@ def prog_construct(w, rng, refs=True):
 def prog_set(w, rng, refs=True, allow=("null", "alias", "new", "foreign")):
     """C10 / C03 / C06 / C08: constructions followed by fitting assignments through random routes, interleaved with growth"""
     keys = []
-    for _ in range(rng.randint(1, 3)):
-        k = w.new(pick_type(rng, refs), rng.randrange(2), allow=allow)
+    for n in range(rng.randint(1, 3)):
+        if n == 0 and w.index % 3 == 0:
+            k = w.new(sweep_type(w.index // 3, rng)[0], rng.randrange(2), mindim=2)
+        else:
+            k = w.new(pick_type(rng, refs), rng.randrange(2), allow=allow)
         if k is None:
             return
         keys.append(k)
@@ -163,13 +196,75 @@ def prog_copy(w, rng):
                 return
 
 
+ERR_KINDS = ["index-get", "index-set", "array-length", "string-too-long", "item-too-large", "union-non-member", "wrong-context", "offset-without-buffer"]
+
+
+def prog_err(w, rng):
+    """C11: objects with live neighbours, then operations that cannot be honoured (each must raise and change no value)"""
+    for n in range(rng.randint(2, 4)):
+        if n == 0 and w.index % 4 == 0:
+            k = w.new(sweep_type(w.index // 4, rng)[0], rng.randrange(2), mindim=1)
+        else:
+            k = w.new(pick_type(rng, True), rng.randrange(2), mindim=1)
+        if k is None:
+            return
+    kinds = list(ERR_KINDS)
+    rng.shuffle(kinds)
+    done = 0
+    for kind in kinds:
+        if w.err(kind):
+            done += 1
+        if done >= 4:
+            break
+
+
+def prog_refs(w, rng):
+    """C08: the eight events of the property: construct, bind to existing / value / foreign object / null, write through the
+    reference, write through the original, allocate until growth"""
+    for _ in range(30):
+        tx = pick_type(rng, True)
+        if X.has_refs(tx):
+            break
+    b = rng.randrange(2)
+    # candidate referents first, in the holder's buffer and in others (empty arrays included)
+    targets = []
+
+    def collect(t):
+        if t["k"] == "ref":
+            targets.append(t["to"]); collect(t["to"])
+        elif t["k"] == "uref":
+            for m in t["of"]:
+                targets.append(m); collect(m)
+        elif t["k"] == "struct":
+            for f in t["f"]:
+                collect(f)
+        elif t["k"] == "arr":
+            collect(t["it"])
+    collect(tx)
+    rng.shuffle(targets)
+    for t in targets[:3]:
+        if w.new(t, b if rng.random() < 0.7 else rng.randrange(len(w.bufs)), allow=("null", "new"), maxdim=rng.choice([0, 1, 3])) is None:
+            return
+    if w.new(tx, b) is None:
+        return
+    for _ in range(rng.randint(3, 8)):
+        x = rng.random()
+        if x < 0.2:
+            w.grow(b)
+        else:
+            key = rng.choice(list(w.handles))
+            if w.set(key, want="ref") is False and w.steps[-1]["op"] == "set" and w.steps[-1]["exc"]:
+                return
+
+
 PROGRAMS = {
     "C01": lambda w, rng: prog_construct(w, rng),
     "C05": lambda w, rng: prog_construct(w, rng),
     "C03": lambda w, rng: (prog_construct if rng.random() < 0.4 else prog_set)(w, rng),
     "C06": lambda w, rng: (prog_construct if rng.random() < 0.3 else prog_set)(w, rng),
     "C10": lambda w, rng: prog_set(w, rng),
-    "C08": lambda w, rng: prog_set(w, rng, refs=True),
+    "C08": prog_refs,
+    "C11": prog_err,
     "C09": prog_copy,
 }
 COUNTS = {"quick": 160, "thorough": 3000}
@@ -178,6 +273,7 @@ COUNTS = {"quick": 160, "thorough": 3000}
 def make_history(pid, seed, index):
     rng = random.Random(f"{seed}:{pid}:{index}")
     w = World(rng)
+    w.index = index
     try:
         PROGRAMS[pid](w, rng)
     except C.MachineryError:
@@ -314,6 +410,8 @@ def check(pid, argv=None):
         if mine:
             sub = step_subject(h, e)
             key = f"{e['op']}:{mine[0]}" + (f":{e.get('form')}" if e.get("form") else "")
+            if e["op"] == "err":
+                key = f"err:{e['kind']}:{e.get('tag', '')}:{mine[0].split(':', 1)[1]}"
             desc = f"history {h['gen']['index']} step {pos} ({e['op']}): clauses {clauses}; program: {h['prog']}"
             run.report(key, desc, dict(gen=h["gen"], prog=h["prog"], failing_step=pos, clauses=clauses))
     run.notes["steps_validated"] = steps_ok
